@@ -343,10 +343,17 @@ func libFrame(stack string) string {
 	return "?"
 }
 
+// ErrNilResult stands for "the entry point returned a nil result together with a nil error": callers
+// of the wrappers below never have to dereference such a result; profiles report it by this value.
+var ErrNilResult = errors.New("entry point returned a nil result and a nil error")
+
 func (n *SPNode) ValidateResponse(enc string) (resp *types.Response, out Outcome) {
 	out = Guard(func() error {
 		var err error
 		resp, err = n.SP.ValidateEncodedResponse(enc)
+		if err == nil && resp == nil {
+			return ErrNilResult
+		}
 		return err
 	})
 	return
@@ -356,6 +363,9 @@ func (n *SPNode) Retrieve(enc string) (ai *saml2.AssertionInfo, out Outcome) {
 	out = Guard(func() error {
 		var err error
 		ai, err = n.SP.RetrieveAssertionInfo(enc)
+		if err == nil && ai == nil {
+			return ErrNilResult
+		}
 		return err
 	})
 	return
@@ -365,6 +375,9 @@ func (n *SPNode) LogoutRequest(enc string) (lr *saml2.LogoutRequest, out Outcome
 	out = Guard(func() error {
 		var err error
 		lr, err = n.SP.ValidateEncodedLogoutRequestPOST(enc)
+		if err == nil && lr == nil {
+			return ErrNilResult
+		}
 		return err
 	})
 	return
@@ -374,6 +387,9 @@ func (n *SPNode) LogoutResponse(enc string) (lr *types.LogoutResponse, out Outco
 	out = Guard(func() error {
 		var err error
 		lr, err = n.SP.ValidateEncodedLogoutResponsePOST(enc)
+		if err == nil && lr == nil {
+			return ErrNilResult
+		}
 		return err
 	})
 	return
